@@ -771,9 +771,15 @@ func init() {
 					}
 				}
 			}
+			// the image at the instant a Flush is acknowledged while another thread of the
+			// process is at work (scenario D3, explored by the scheduler)
+			sh = append(sh, vSchedShards("C10", tier)...)
 			return sh
 		},
 		Replay: func(c *vCtx, v *vViolation) bool {
+			if strings.HasPrefix(v.Config, "sched ") {
+				return vSchedReplay(c, v)
+			}
 			cfg := vParseCrashCfg(v.Config)
 			cfg.inDir(func() {
 				h := vCrashRecord(cfg)
